@@ -237,39 +237,50 @@ def r2(R, m):
 def r3(R, m):
     R.rule("C15.R3", "get_clean_labels: sequential counting loop gives roots (labels[i] == i) the next number and negates the rest; the prange "
                      "loop writes only labels[i] under own value j < 0 and reads only labels[-j]")
-    fn = m.func("get_clean_labels")
+    fn = m.ifunc("get_clean_labels")      # helpers inlined, counting while loops read as for loops over range()
+    L = fn.args.args[0].arg                # the label array, whatever it is called
     loops = [l for l in fn.body if isinstance(l, ast.For)]
     R.shape(len(loops) == 2, "C15.R3", REL, "get_clean_labels", "the counting loop and the relabelling loop")
     cnt, rel = loops
-    R.check(not is_prange(cnt) and pyfacts.dotted(cnt.iter.func) == "range", "C15.R3", REL, cnt.lineno, "get_clean_labels", "counting loop is a plain range()",
+    R.check(not is_prange(cnt) and isinstance(cnt.iter, ast.Call) and pyfacts.dotted(cnt.iter.func) == "range", "C15.R3", REL, cnt.lineno, "get_clean_labels", "counting loop is a plain range()",
             "the numbering of the roots depends on iteration order: it must be sequential")
+    full = lambda it: isinstance(it, ast.Call) and len(it.args) == 1 and pyfacts.resolved_src(fn, it.args[0], 3, keep=(L,)).replace(" ", "") in ("len(%s)" % L, "%s.size" % L, "%s.shape[0]" % L)
+    R.check(full(cnt.iter) and full(rel.iter), "C15.R3", REL, cnt.lineno, "get_clean_labels", "both loops run over all of %s" % L, "a loop does not visit every label")
     iv = src(cnt.target)
-    ifs = [s for s in cnt.body if isinstance(s, ast.If)]
-    ok = len(ifs) == 1 and src(ifs[0].test) in ("labels[%s] == %s" % (iv, iv), "%s == labels[%s]" % (iv, iv))
-    if ok:
-        tb = [src(s) for s in ifs[0].body]
-        eb = [src(s) for s in ifs[0].orelse]
-        ok = tb == ["labels[%s] = n" % iv, "n += 1"] and eb == ["labels[%s] = -labels[%s]" % (iv, iv)]
+    ifs = [s_ for s_ in cnt.body if isinstance(s_, ast.If)]
+    R.shape(len(ifs) == 1, "C15.R3", REL, "get_clean_labels", "the root test inside the counting loop")
+    test = src(ifs[0].test).replace(" ", "")
+    root_first = test in ("%s[%s]==%s" % (L, iv, iv), "%s==%s[%s]" % (iv, L, iv))
+    root_second = test in ("%s[%s]!=%s" % (L, iv, iv), "%s!=%s[%s]" % (iv, L, iv))
+    R.check(root_first or root_second, "C15.R3", REL, ifs[0].lineno, "get_clean_labels", "root test %s" % src(ifs[0].test), "roots are not recognised by labels[i] == i")
+    tb = [src(s_).replace(" ", "") for s_ in (ifs[0].body if root_first else ifs[0].orelse)]
+    eb = [src(s_).replace(" ", "") for s_ in (ifs[0].orelse if root_first else ifs[0].body)]
+    mcount = re.match(r"^%s\[%s\]=(\w+)$" % (re.escape(L), re.escape(iv)), tb[0]) if tb else None
+    nname = mcount.group(1) if mcount else None
+    ok = nname is not None and tb[1:] in (["%s+=1" % nname], ["%s=%s+1" % (nname, nname)], ["%s=1+%s" % (nname, nname)]) \
+        and eb in (["%s[%s]=-%s[%s]" % (L, iv, L, iv)], ["%s[%s]*=-1" % (L, iv)])
     R.check(ok, "C15.R3", REL, cnt.lineno, "get_clean_labels", "root: labels[i] = n; n += 1   else: labels[i] = -labels[i]", "roots are not numbered consecutively in index order, or non-roots are not tagged")
+    if nname:
+        init = [s_ for s_ in fn.body if isinstance(s_, ast.Assign) and src(s_.targets[0]) == nname]
+        R.check(len(init) == 1 and src(init[0].value) == "0" and init[0].lineno < cnt.lineno, "C15.R3", REL, fn.lineno, "get_clean_labels", "%s starts at 0" % nname, "the numbering does not start at 0")
     R.check(is_prange(rel), "C15.R3", REL, rel.lineno, "get_clean_labels", "relabelling loop is a prange", "shape changed")
     iv2 = src(rel.target)
-    stores = [s for s in ast.walk(rel) if isinstance(s, (ast.Assign, ast.AugAssign)) and isinstance((s.targets[0] if isinstance(s, ast.Assign) else s.target), ast.Subscript)]
-    R.check(len(stores) == 1 and src(stores[0].targets[0]) == "labels[%s]" % iv2, "C15.R3", REL, rel.lineno, "get_clean_labels", "only store: labels[%s]" % iv2,
+    rs = lambda n_: pyfacts.resolved_src(fn, n_, 3, keep=(L, iv2)).replace(" ", "")
+    stores = [s_ for s_ in ast.walk(rel) if isinstance(s_, (ast.Assign, ast.AugAssign)) and isinstance((s_.targets[0] if isinstance(s_, ast.Assign) else s_.target), ast.Subscript)]
+    R.check(len(stores) == 1 and isinstance(stores[0], ast.Assign) and src(stores[0].targets[0]) == "%s[%s]" % (L, iv2), "C15.R3", REL, rel.lineno, "get_clean_labels", "only store: %s[%s]" % (L, iv2),
             "an iteration writes a cell other than its own")
-    own = [s for s in rel.body if isinstance(s, ast.Assign) and src(s.value) == "labels[%s]" % iv2]
-    R.shape(len(own) == 1, "C15.R3", REL, "get_clean_labels", "j = labels[i]")
-    j = src(own[0].targets[0])
-    if stores:
+    OWN = "%s[%s]" % (L, iv2)
+    if stores and isinstance(stores[0], ast.Assign):
         par = getattr(stores[0], "_parent", None)
-        R.check(isinstance(par, ast.If) and src(par.test) == "%s < 0" % j, "C15.R3", REL, stores[0].lineno, "get_clean_labels", "store guarded by %s < 0" % j,
-                "root cells (value >= 0) can be rewritten while other iterations read them")
-        R.check(src(stores[0].value) == "labels[-%s]" % j, "C15.R3", REL, stores[0].lineno, "get_clean_labels", "value read from labels[-%s]" % j,
+        R.check(isinstance(par, ast.If) and stores[0] in par.body and rs(par.test) in ("%s<0" % OWN, "0>%s" % OWN), "C15.R3", REL, stores[0].lineno, "get_clean_labels",
+                "store guarded by own value < 0", "root cells (value >= 0) can be rewritten while other iterations read them")
+        R.check(rs(stores[0].value) == "%s[-%s]" % (L, OWN), "C15.R3", REL, stores[0].lineno, "get_clean_labels", "value read from labels[-own value]",
                 "the new label is not read from the root the tag points to")
-    reads = [x for x in ast.walk(rel) if isinstance(x, ast.Subscript) and src(x.value) == "labels" and isinstance(x.ctx, ast.Load)]
-    R.check(sorted(set(src(x) for x in reads)) == sorted(["labels[%s]" % iv2, "labels[-%s]" % j]), "C15.R3", REL, rel.lineno, "get_clean_labels",
-            "reads: own cell and labels[-%s]" % j, "the parallel loop reads other cells that may be written concurrently")
+    reads = [x for x in ast.walk(rel) if isinstance(x, ast.Subscript) and src(x.value) == L and isinstance(x.ctx, ast.Load)]
+    R.check(sorted(set(rs(x) for x in reads)) == sorted([OWN, "%s[-%s]" % (L, OWN)]), "C15.R3", REL, rel.lineno, "get_clean_labels",
+            "reads: own cell and labels[-own value]", "the parallel loop reads other cells that may be written concurrently")
     rets = [r for r in ast.walk(fn) if isinstance(r, ast.Return)]
-    R.check(len(rets) == 1 and src(rets[0].value) == "n", "C15.R3", REL, fn.lineno, "get_clean_labels", "returns the number of roots", "returned count is not the number of labels")
+    R.check(len(rets) == 1 and nname is not None and src(rets[0].value) == nname, "C15.R3", REL, fn.lineno, "get_clean_labels", "returns the number of roots", "returned count is not the number of labels")
 
 
 def r4(R, m):
